@@ -555,11 +555,21 @@ hwloc_apply_diff_one(hwloc_topology_t topology,
 	return 0;
 }
 
+/* apply entries from diff (included) to stop (excluded) in reverse order */
+static void
+hwloc_cancel_diff(hwloc_topology_t topology, hwloc_topology_diff_t diff, hwloc_topology_diff_t stop, unsigned long flags)
+{
+	if (diff == stop)
+		return;
+	hwloc_cancel_diff(topology, diff->generic.next, stop, flags);
+	hwloc_apply_diff_one(topology, diff, flags);
+}
+
 int hwloc_topology_diff_apply(hwloc_topology_t topology,
 			      hwloc_topology_diff_t diff,
 			      unsigned long flags)
 {
-	hwloc_topology_diff_t tmpdiff, tmpdiff2;
+	hwloc_topology_diff_t tmpdiff;
 	int err, nr;
 
 	if (!(topology->state & HWLOC_TOPOLOGY_STATE_IS_LOADED)) {
@@ -588,12 +598,8 @@ int hwloc_topology_diff_apply(hwloc_topology_t topology,
 	return 0;
 
 cancel:
-	tmpdiff2 = tmpdiff;
-	tmpdiff = diff;
-	while (tmpdiff != tmpdiff2) {
-		hwloc_apply_diff_one(topology, tmpdiff, flags ^ HWLOC_TOPOLOGY_DIFF_APPLY_REVERSE);
-		tmpdiff = tmpdiff->generic.next;
-	}
+	/* undo what was applied before tmpdiff, last applied first */
+	hwloc_cancel_diff(topology, diff, tmpdiff, flags ^ HWLOC_TOPOLOGY_DIFF_APPLY_REVERSE);
 	errno = EINVAL;
 	return -nr; /* return the index (starting at 1) of the first element that couldn't be applied */
 }
